@@ -76,6 +76,13 @@ func New(cidrs []string) (*Set, []BadEntry) {
 }
 
 func (s *Set) add(p netip.Prefix) {
+	// An IPv4 CIDR spelled in IPv4-mapped form (::ffff:a.b.c.d/96+n, how a
+	// dual-stack socket logs its IPv4 clients) names a.b.c.d/n, as it did
+	// under net.ParseCIDR. Contains unmaps every such source, so left among
+	// the IPv6 spans the entry could never match anything.
+	if a := p.Addr(); a.Is4In6() && p.Bits() >= 96 {
+		p = netip.PrefixFrom(a.Unmap(), p.Bits()-96)
+	}
 	p = p.Masked()
 	lo, hi := bounds(p)
 	if p.Addr().Is4() {
